@@ -6,7 +6,14 @@ from framework import Func
 from modeldrv import Z
 import ecref
 
-from bip_utils import (Bip32KholawEd25519, CardanoIcarusBip32, CardanoByronLegacyBip32, Bip32KeyData, Bip32KeyIndex)
+from bip_utils import (Bip32KholawEd25519, CardanoIcarusBip32, CardanoByronLegacyBip32, Bip32KeyData, Bip32KeyIndex,
+                       AdaShelleyAddrEncoder, AdaShelleyAddrDecoder, AdaShelleyStakingAddrEncoder,
+                       AdaShelleyStakingAddrDecoder, AdaShelleyAddrNetworkTags, AdaByronIcarusAddrEncoder,
+                       AdaByronLegacyAddrEncoder, AdaByronAddrDecoder, Cip1852, Cip1852Coins, CardanoShelley,
+                       CardanoByronLegacy, Bip44Changes, Bip32Path, Bip39MnemonicGenerator,
+                       CardanoIcarusSeedGenerator, CardanoByronLegacySeedGenerator)
+from bip_utils.utils.misc import CborIndefiniteLenArrayEncoder, CborIndefiniteLenArrayDecoder
+import oracles_cardmon as OC
 
 E = ecref.ED25519
 L = E.L
@@ -237,10 +244,175 @@ def direct_derive(a):
     return None
 
 
+
+# ------------------------------------------------------------------ addresses: implementation side
+
+TAGS = [AdaShelleyAddrNetworkTags.MAINNET, AdaShelleyAddrNetworkTags.TESTNET]      # order of Gen ada_nets
+HRPS = [("addr", "stake", 1), ("addr_test", "stake_test", 0)]                        # CIP-19 / CIP-5
+COINS = {(0, 0): Cip1852Coins.CARDANO_LEDGER, (0, 1): Cip1852Coins.CARDANO_LEDGER_TESTNET,
+         (1, 0): Cip1852Coins.CARDANO_ICARUS, (1, 1): Cip1852Coins.CARDANO_ICARUS_TESTNET}
+
+
+def blake224(b):
+    return hashlib.blake2b(bytes(b), digest_size=28).digest()
+
+
+def impl_shelley_wallet(a):
+    scheme, seed, net, acc, chg, idx, op = a
+    acct = Cip1852.FromSeed(seed, COINS[(scheme, net)]).Purpose().Coin().Account(int(acc))
+    sh = CardanoShelley.FromCip1852Object(acct)
+    if op == 1:
+        return sh.PublicKeys().ToStakingAddress()
+    if chg not in (0, 1):
+        raise KeyError("change")       # not a Bip44Changes member: outside the model (generator never asks)
+    ch = sh.Change(Bip44Changes(int(chg))).AddressIndex(int(idx))
+    if op == 0:
+        return ch.PublicKeys().ToAddress()
+    return [ch.PublicKeys().AddressKey().RawCompressed().ToBytes()[1:],
+            ch.PublicKeys().StakingKey().RawCompressed().ToBytes()[1:]]
+
+
+def impl_byron_wallet(a):
+    seed, i1, i2, op = a
+    w = CardanoByronLegacy.FromSeed(seed)
+    if op == 0:
+        return w.GetAddress(int(i1), int(i2))
+    if op == 1:
+        return w.HdPathFromAddress(w.GetAddress(int(i1), int(i2))).ToList()
+    if op == 2:
+        return w.HdPathKey()
+    k = w.GetPublicKey(int(i1), int(i2))
+    return [k.RawCompressed().ToBytes()[1:], k.ChainCode().ToBytes()]
+
+
+def impl_byron_path_from(a):
+    seed, addr = a
+    return CardanoByronLegacy.FromSeed(seed).HdPathFromAddress(addr).ToList()
+
+
+# ------------------------------------------------------------------ addresses: direct checks
+
+def ref_shelley_payload(net, pk, sk):
+    return bytes([(0 << 4) + HRPS[net][2]]) + blake224(pk) + blake224(sk)
+
+
+def direct_shelley_wallet(a):
+    """The Shelley address is header || blake2b224(payment key) || blake2b224(stake key at account/2/0) under the
+    network's prefix, decodes back; the keys are the CIP-1852 children recomputed from the published formulas."""
+    scheme, seed, net, acc, chg, idx, op = a
+    if not (0 <= acc < 2**31 and chg in (0, 1) and 0 <= idx < 2**32):
+        return None
+    try:
+        r = impl_shelley_wallet(a)
+    except Exception:  # noqa
+        return None
+    base = [HARD + 1852, HARD + 1815, HARD + acc]
+    _, spub, _, _ = ref_walk(scheme, seed, b"", base + [2, 0], 0, [])
+    _, apub, _, _ = ref_walk(scheme, seed, b"", base + [chg, idx], 0, [])
+    if op == 2:
+        return None if r == [apub, spub] else "Shelley keys differ from m/1852'/1815'/acc'/{chg/idx, 2/0}"
+    if op == 0:
+        exp = OC.bech32_encode(HRPS[net][0], ref_shelley_payload(net, apub, spub)).str()
+        if r != exp:
+            return "Shelley address %s != scheme definition %s" % (r, exp)
+        d = AdaShelleyAddrDecoder.DecodeAddr(r, net_tag=TAGS[net])
+        return None if d == blake224(apub) + blake224(spub) else "Shelley address does not decode back to the key hashes"
+    exp = OC.bech32_encode(HRPS[net][1], bytes([(0x0E << 4) + HRPS[net][2]]) + blake224(spub)).str()
+    if r != exp:
+        return "staking address %s != scheme definition %s" % (r, exp)
+    d = AdaShelleyStakingAddrDecoder.DecodeAddr(r, net_tag=TAGS[net])
+    return None if d == blake224(spub) else "staking address does not decode back to the key hash"
+
+
+def direct_byron_wallet(a):
+    """Recovering the path from a Byron-legacy address returns the indices used, and the address decodes (CRC ok)."""
+    seed, i1, i2, op = a
+    if not (0 <= i1 < 2**32 and 0 <= i2 < 2**32):
+        return None
+    try:
+        w = CardanoByronLegacy.FromSeed(seed)
+        addr = w.GetAddress(int(i1), int(i2))
+    except Exception:  # noqa
+        return None
+    path = w.HdPathFromAddress(addr).ToList()
+    if path != [i1 | HARD, i2 | HARD]:
+        return "HdPathFromAddress(GetAddress(%d, %d)) = %r" % (i1, i2, path)
+    dec = AdaByronAddrDecoder.DecodeAddr(addr)
+    if len(dec) <= 28:
+        return "decoded Byron-legacy address carries no encrypted path"
+    # the address commits to the derived key: recompute the root hash with independent primitives
+    k, pub, cc, _ = ref_walk(2, seed, b"", [i1 | HARD, i2 | HARD], 0, [])
+    import cbor2
+    attrs = {1: cbor2.dumps(dec[28:])}
+    root = cbor2.dumps([0, [0, pub + cc], attrs])
+    if dec[:28] != blake224(hashlib.sha3_256(root).digest()):
+        return "Byron address root hash does not commit to the derived key and chain code"
+    return None
+
+
+def direct_f7(a):
+    """Documented argument type Bip32KeyIndex for the CardanoByronLegacy getters."""
+    seed, i1, i2, which = a
+    w = CardanoByronLegacy.FromSeed(seed)
+    fn = [w.GetAddress, w.GetPublicKey, w.GetPrivateKey][which]
+    want = fn(i1, i2)
+    want = want if isinstance(want, str) else want.Raw().ToBytes() if which == 2 else want.RawCompressed().ToBytes()
+    try:
+        got = fn(Bip32KeyIndex(i1), Bip32KeyIndex(i2))
+    except Exception as e:  # noqa
+        return "%s(Bip32KeyIndex(%d), Bip32KeyIndex(%d)) raises %s: %s" % (fn.__name__, i1, i2, type(e).__name__, e)
+    got = got if isinstance(got, str) else got.Raw().ToBytes() if which == 2 else got.RawCompressed().ToBytes()
+    return None if got == want else "%s with index objects differs from the call with ints" % fn.__name__
+
+
+def model_seed_gen(m, a):
+    return None
+
+
+def direct_seed_gen(a):
+    """Cardano seed generators: Icarus seed = entropy; Byron-legacy seed = blake2b-256(CBOR(entropy))."""
+    ent, = a
+    mn = Bip39MnemonicGenerator().FromEntropy(ent)
+    if CardanoIcarusSeedGenerator(mn).Generate() != ent:
+        return "Icarus seed is not the mnemonic's entropy"
+    hdr = bytes([0x40 + len(ent)]) if len(ent) < 24 else bytes([0x58, len(ent)])
+    if CardanoByronLegacySeedGenerator(mn).Generate() != hashlib.blake2b(hdr + ent, digest_size=32).digest():
+        return "Byron-legacy seed is not blake2b-256 of the CBOR byte string of the entropy"
+    return None
+
 FUNCS = {
     "kh_master": Func(model=lambda m, a: fix_foreign(m.call("kh_master", a[0], a[1])), impl=impl_master,
                       direct=direct_master),
     "kh_derive": Func(model=model_derive, impl=impl_derive, direct=direct_derive),
+    "ada_shelley_encode": Func(model=lambda m, a: m.call("ada_shelley_encode", a[0], a[1], a[2]),
+                               impl=lambda a: AdaShelleyAddrEncoder.EncodeKey(a[1], pub_skey=a[2], net_tag=TAGS[a[0]])),
+    "ada_shelley_decode": Func(model=lambda m, a: m.call("ada_shelley_decode", a[0], a[1]),
+                               impl=lambda a: AdaShelleyAddrDecoder.DecodeAddr(a[1], net_tag=TAGS[a[0]])),
+    "ada_staking_encode": Func(model=lambda m, a: m.call("ada_staking_encode", a[0], a[1]),
+                               impl=lambda a: AdaShelleyStakingAddrEncoder.EncodeKey(a[1], net_tag=TAGS[a[0]])),
+    "ada_staking_decode": Func(model=lambda m, a: m.call("ada_staking_decode", a[0], a[1]),
+                               impl=lambda a: AdaShelleyStakingAddrDecoder.DecodeAddr(a[1], net_tag=TAGS[a[0]])),
+    "ada_shelley_wallet": Func(model=lambda m, a: fix_foreign(m.call("ada_shelley_wallet", a[0], a[1], a[2], Z(a[3]), Z(a[4]), Z(a[5]), a[6])),
+                               impl=impl_shelley_wallet, direct=direct_shelley_wallet),
+    "cbor_indef_encode": Func(model=lambda m, a: m.call("cbor_indef_encode", list(a[0])),
+                              impl=lambda a: CborIndefiniteLenArrayEncoder.Encode(a[0]),
+                              direct=lambda a: None if not a[0] or CborIndefiniteLenArrayDecoder.Decode(
+                                  CborIndefiniteLenArrayEncoder.Encode(a[0])) == list(a[0]) else "indefinite array round trip"),
+    "cbor_indef_decode": Func(model=lambda m, a: m.call("cbor_indef_decode", a[0]),
+                              impl=lambda a: CborIndefiniteLenArrayDecoder.Decode(a[0])),
+    "ada_byron_encode_icarus": Func(model=lambda m, a: m.call("ada_byron_encode_icarus", a[0], a[1]),
+                                    impl=lambda a: AdaByronIcarusAddrEncoder.EncodeKey(a[0], chain_code=a[1])),
+    "ada_byron_encode_legacy": Func(model=lambda m, a: m.call("ada_byron_encode_legacy", a[0], a[1], list(a[2]), a[3]),
+                                    impl=lambda a: AdaByronLegacyAddrEncoder.EncodeKey(
+                                        a[0], chain_code=a[1], hd_path=Bip32Path(list(a[2]), True), hd_path_key=a[3])),
+    "ada_byron_decode": Func(model=lambda m, a: m.call("ada_byron_decode", a[0]),
+                             impl=lambda a: AdaByronAddrDecoder.DecodeAddr(a[0])),
+    "ada_byron_wallet": Func(model=lambda m, a: fix_foreign(m.call("ada_byron_wallet", a[0], Z(a[1]), Z(a[2]), a[3])),
+                             impl=impl_byron_wallet, direct=direct_byron_wallet),
+    "ada_byron_path_from": Func(model=lambda m, a: fix_foreign(m.call("ada_byron_path_from", a[0], a[1])),
+                                impl=impl_byron_path_from),
+    "byron_index_objects": Func(direct=direct_f7),
+    "cardano_seed_gen": Func(direct=direct_seed_gen),
 }
 
 
@@ -277,6 +449,15 @@ def byron_pubderiv_bit255_replay():
     if priv[1] != pub[1]:
         return "CardanoByronLegacyBip32 m/%d: public derivation %s != private derivation %s" % (a[5][0], pub[1].hex()[:16], priv[1].hex()[:16])
     return None
+
+
+def f7_index_objects(fn, args, rec):
+    """CardanoByronLegacy getters called with Bip32KeyIndex objects (documented argument type)."""
+    return fn == "byron_index_objects"
+
+
+def f7_index_objects_replay():
+    return direct_f7([bytes(range(32)), 0, 0, 0])
 
 
 # ------------------------------------------------------------------ generators
@@ -357,3 +538,151 @@ def generate(ctx):
             path = [rand_idx(rng) for _ in range(rng.choice([1, 2]))]
             ctx.run("kh_derive", [scheme, k, rb(rng, 32), path, 0, []], "priv-rand")
     ctx.note_exhaustive("seed lengths 0..70 x 3 master schemes (one seed each)")
+    generate_addresses(ctx)
+
+
+B32 = "qpzry9x8gf2tvdw0s3jn54khce6mua7l"
+B58 = "123456789ABCDEFGHJKLMNPQRSTUVWXYZabcdefghijkmnopqrstuvwxyz"
+
+
+def uint_heads_only(b):
+    """Do all element heads the decoder will look at belong to unsigned integers (or the end marker)?  Other heads
+    are passed to cbor2 by the library and may decode to arbitrary objects; the model refuses them (see
+    coq/Model/AddrAdaByron.v) and they are kept out of the correspondence."""
+    i = 1
+    while i < len(b):
+        x = b[i]
+        if x == 0xff:
+            return True
+        if x > 27:
+            return False
+        i += {24: 2, 25: 3, 26: 5, 27: 9}.get(x, 1)
+    return True
+
+
+def mutate_text(rng, s, alphabet):
+    t = list(s)
+    m = rng.randrange(5)
+    if m == 0:
+        t[rng.randrange(len(t))] = rng.choice(alphabet)
+    elif m == 1:
+        t = t[:rng.randrange(len(t))]
+    elif m == 2:
+        t.insert(rng.randrange(len(t) + 1), rng.choice(alphabet))
+    elif m == 3:
+        i = rng.randrange(len(t) - 1)
+        t[i], t[i + 1] = t[i + 1], t[i]
+    else:
+        t[rng.randrange(len(t))] = rng.choice("0OIlb1 ")
+    return "".join(t)
+
+
+def rand_pub(rng):
+    return E.ser(E.mul(rng.randrange(1, L), E.G))
+
+
+def generate_addresses(ctx):
+    rng = ctx.rng
+    # --- Shelley encoders / decoders on raw keys
+    for _ in range(ctx.n(40, 800)):
+        net = rng.randrange(2)
+        pk, sk = rand_pub(rng), rand_pub(rng)
+        ctx.run("ada_shelley_encode", [net, pk, sk], "valid")
+        ctx.run("ada_shelley_encode", [net, b"\x00" + pk, sk], "prefixed")
+        ctx.run("ada_staking_encode", [net, sk], "valid")
+        ctx.run("ada_shelley_encode", [net, rb(rng, 32), sk], "random-key")
+        ctx.run("ada_shelley_encode", [net, pk, sk[:31]], "short-key")
+        ctx.run("ada_staking_encode", [net, rb(rng, rng.choice([31, 32, 33]))], "random-key")
+        a = OC.bech32_encode(HRPS[net][0], ref_shelley_payload(net, pk, sk)).str()
+        s = OC.bech32_encode(HRPS[net][1], bytes([0xE0 + HRPS[net][2]]) + blake224(sk)).str()
+        ctx.run("ada_shelley_decode", [net, a], "valid")
+        ctx.run("ada_staking_decode", [net, s], "valid")
+        ctx.run("ada_shelley_decode", [1 - net, a], "wrong-net")
+        ctx.run("ada_staking_decode", [1 - net, s], "wrong-net")
+        ctx.run("ada_shelley_decode", [net, s], "wrong-kind")
+        ctx.run("ada_staking_decode", [net, a], "wrong-kind")
+        ctx.run("ada_shelley_decode", [net, mutate_text(rng, a, B32)], "mutated")
+        ctx.run("ada_staking_decode", [net, mutate_text(rng, s, B32)], "mutated")
+        # well-formed Bech32 around a wrong payload
+        bad = rng.randrange(4)
+        if bad == 0:
+            pl = bytes([rng.randrange(256)]) + rb(rng, 56)
+        elif bad == 1:
+            pl = ref_shelley_payload(net, pk, sk)[:rng.randrange(57)]
+        elif bad == 2:
+            pl = ref_shelley_payload(net, pk, sk) + rb(rng, rng.randrange(1, 4))
+        else:
+            pl = ref_shelley_payload(1 - net, pk, sk)
+        ctx.run("ada_shelley_decode", [net, OC.bech32_encode(HRPS[net][0], pl).str()], "bad-payload")
+        ctx.run("ada_staking_decode", [net, OC.bech32_encode(HRPS[net][1], pl[:29]).str()], "bad-payload")
+        ctx.run("ada_shelley_decode", [net, a.upper()], "upper")
+    # --- Shelley wallets
+    for _ in range(ctx.n(12, 300)):
+        if not ctx.time_left():
+            break
+        scheme, net = rng.randrange(2), rng.randrange(2)
+        seed = rb(rng, rng.choice([16, 20, 24, 28, 32]))
+        acc = rng.choice([0, 1, 2, HARD - 1, rng.randrange(HARD)])
+        chg, idx = rng.randrange(2), rng.choice([0, 1, HARD - 1, rng.randrange(HARD), 2**32 - 1, HARD])
+        for op in (0, 1, 2):
+            ctx.run("ada_shelley_wallet", [scheme, seed, net, acc, chg, idx, op], "wallet-%d" % scheme)
+    for bad_acc in (-1, 2**32, 2**32 - 1, HARD):
+        ctx.run("ada_shelley_wallet", [0, rb(rng, 32), 0, bad_acc, 0, 0, 0], "bad-account")
+    for bad_idx in (-1, 2**32):
+        ctx.run("ada_shelley_wallet", [1, rb(rng, 32), 0, 0, 0, bad_idx, 0], "bad-index")
+    # --- indefinite-length arrays
+    for _ in range(ctx.n(60, 1500)):
+        l = [rng.choice([0, 1, 23, 24, 255, 256, 65535, 65536, 2**31, 2**32 - 1, 2**32, 2**63, 2**64 - 1,
+                         rng.randrange(2**32)]) for _ in range(rng.randrange(0, 5))]
+        ctx.run("cbor_indef_encode", [l], "rand", trivial=(l == []))
+        enc = CborIndefiniteLenArrayEncoder.Encode(l)
+        ctx.run("cbor_indef_decode", [enc], "valid")
+        if len(enc) > 2:
+            cut = rng.randrange(len(enc))
+            for tag, m in (("deleted-byte", enc[:cut] + enc[cut + 1:]), ("truncated", enc[:cut]),
+                           ("early-end", enc[:cut] + b"\xff")):
+                if uint_heads_only(m):
+                    ctx.run("cbor_indef_decode", [m], tag)
+    for b in (b"", b"\x9f", b"\x9f\xff", b"\x9f\x00\xff", b"\x9f\x18\xff", b"\x9f\x18\x05\xff", b"\x9f\x19\x01\xff",
+              b"\x9f\x1b\x00\x00\x00\x00\x00\x00\x00\x01\xff", b"\x9f\x1b\x00\x00\xff", b"\x80\x00\xff", b"\x9f\x00\x00"):
+        ctx.run("cbor_indef_decode", [b], "directed", trivial=(b == b""))
+    # --- Byron addresses
+    for _ in range(ctx.n(25, 500)):
+        pub, cc, key = rand_pub(rng), rb(rng, 32), rb(rng, 32)
+        path = [rng.choice([0, 1, HARD, HARD + 1, 2**32 - 1, rng.randrange(2**32)]) for _ in range(rng.choice([0, 1, 2, 2, 3]))]
+        ctx.run("ada_byron_encode_icarus", [pub, cc], "valid")
+        ctx.run("ada_byron_encode_legacy", [pub, cc, path, key], "valid")
+        ctx.run("ada_byron_encode_legacy", [b"\x00" + pub, cc, path, key], "prefixed")
+        ctx.run("ada_byron_encode_legacy", [pub, cc, path, key[:31]], "short-key")
+        ctx.run("ada_byron_encode_legacy", [pub, cc[:31], path, key], "short-cc")
+        ctx.run("ada_byron_encode_icarus", [rb(rng, 32), cc], "random-pub")
+        a1 = AdaByronIcarusAddrEncoder.EncodeKey(pub, chain_code=cc)
+        a2 = AdaByronLegacyAddrEncoder.EncodeKey(pub, chain_code=cc, hd_path=Bip32Path(path, True), hd_path_key=key)
+        ctx.run("ada_byron_decode", [a1], "valid-icarus")
+        ctx.run("ada_byron_decode", [a2], "valid-legacy")
+        ctx.run("ada_byron_decode", [mutate_text(rng, a2, B58)], "mutated")
+    # --- Byron-legacy wallets: address, path recovery
+    for _ in range(ctx.n(10, 250)):
+        if not ctx.time_left():
+            break
+        seed = rb(rng, 32)
+        i1 = rng.choice([0, 1, HARD - 1, HARD, 2**32 - 1, rng.randrange(2**32)])
+        i2 = rng.choice([0, 1, HARD - 1, HARD + 3, rng.randrange(2**32)])
+        for op in (0, 1, 2, 3):
+            ctx.run("ada_byron_wallet", [seed, i1, i2, op], "wallet")
+        other = rb(rng, 32)
+        addr = CardanoByronLegacy.FromSeed(seed).GetAddress(i1, i2)
+        ctx.run("ada_byron_path_from", [seed, addr], "own")
+        ctx.run("ada_byron_path_from", [other, addr], "foreign-wallet")
+        ctx.run("ada_byron_path_from", [seed, mutate_text(rng, addr, B58)], "mutated")
+        ctx.run("ada_byron_path_from", [seed, AdaByronIcarusAddrEncoder.EncodeKey(rand_pub(rng), chain_code=rb(rng, 32))], "icarus-addr")
+    for bad in (-1, 2**32, 2**40):
+        ctx.run("ada_byron_wallet", [rb(rng, 32), bad, 0, 0], "bad-index")
+        ctx.run("ada_byron_wallet", [rb(rng, 32), 0, bad, 3], "bad-index")
+    # --- F7: index objects; seed generators
+    for which in (0, 1, 2):
+        ctx.run("byron_index_objects", [rb(rng, 32), rng.randrange(HARD), rng.randrange(HARD), which], "objects")
+    for n in (16, 20, 24, 28, 32):
+        for _ in range(ctx.n(2, 40)):
+            ctx.run("cardano_seed_gen", [rb(rng, n)], "entropy-%d" % n)
+
